@@ -304,5 +304,13 @@ Definition enabled (x : xstate) : list (list N) :=
           let y := get s f in
           if f_alive y then
             (if f_hp y then [Poll f (2 * f); Poll f (2 * f + 1)] else []) ++ [DropFut f]
-          else map (fun t => Deadline f (N.of_nat t)) (seq 1 (x_d x))) (seq 0 (length (futs s)))
+          else map (fun t => Deadline f (N.of_nat t)) (seq 1 (x_d x))
+               (* tmax = 0 marks the delay-boundary configuration: durations around the
+                  millisecond conversion and the two saturation points *)
+               ++ (if N.eqb (x_tmax x) 0 then
+                     map (fun p => Delay f (fst p) (snd p))
+                         [(0, 0); (0, 999999); (0, 1000000); (1, 999999999); (18446744073709551, 615000000);
+                          (18446744073709551, 616000000); (2305843009213693952, 0); (18446744073709551615, 999999999);
+                          (18446744073709552, 50000000)]%N
+                   else [])) (seq 0 (length (futs s)))
      ++ [CheckExp; NextExp]).
